@@ -229,6 +229,13 @@ op("tensordot_dense", 1,
    {"b": [[rng.choice([0, 0, 1, 2, -1]) for _ in range(rng.choice([1, 2]))] for _ in range(xs[0].shape[-1])],
     "rt": rng.choice([None, "coo", "gcxs", "dense"])},
    zero=True, ret="any", fill="zero", minnd=1)
+op("rtensordot_dense", 1,
+   lambda p, x: _np().tensordot(_np().array(p["a"], dtype=x.dtype), x, axes=1),
+   lambda p, x: _sp().tensordot(_np().array(p["a"], dtype=x.dtype), x, axes=1, return_type=_rt(p["rt"])),
+   lambda rng, xs, ctx: None if xs[0].ndim < 1 else
+   {"a": [[rng.choice([0, 0, 1, 2, -1]) for _ in range(xs[0].shape[0])] for _ in range(rng.choice([1, 2]))],
+    "rt": rng.choice([None, "coo", "gcxs", "dense"])},
+   zero=True, ret="any", fill="zero", minnd=1)
 op("kron", 2, lambda p, x, y: _np().kron(x, y), lambda p, x, y: _sp().kron(x, y), zero=True, second="any", fill="zero")
 op("outer", 2, lambda p, x, y: _np().outer(x, y), lambda p, x, y: _sp().outer(x, y),
    lambda rng, xs, ctx: {} if xs[0].ndim == 1 and xs[1].ndim == 1 else None, zero=True, second="vector", fill="zero", minnd=1)
@@ -666,9 +673,9 @@ class Gen:
             fill = 0 if fills[0] == 0 and name in ("sum", "max", "min", "any", "all", "nansum", "nanmax", "nanmin") else None
         ok = o["ret"] in ("sparse", "any") and val is not None and val.ndim >= 1 and not (o["ret"] == "any" and name in (
             "matmul_dense", "rmatmul_dense", "argmax", "argmin"))
-        if name in ("matmul", "dot", "tensordot", "tensordot_dense", "einsum_tr"):
+        if name in ("matmul", "dot", "tensordot", "tensordot_dense", "rtensordot_dense", "einsum_tr"):
             # a dense operand or return type gives an ndarray: only sparse x sparse results are reused
-            ok = ok and p.get("rt") in (None, "coo", "gcxs") and name != "tensordot_dense"
+            ok = ok and p.get("rt") in (None, "coo", "gcxs") and name not in ("tensordot_dense", "rtensordot_dense")
         self.steps.append({"op": name, "args": [self.pool[i]["ref"] for i in args], "p": p})
         self.pool.append(dict(ref=["st", len(self.steps) - 1], val=val, fill=fill, ok=ok))
         return True
@@ -730,7 +737,7 @@ def gen_directed(rng, tier):
                         or sum(1 for t in tup if t[0] == "n") > 1:
                     continue
                 idxs.append((nd, [list(t) for t in tup]))
-    want = 200 if tier == "quick" else len(idxs) * 2
+    want = 140 if tier == "quick" else len(idxs) * 2
     picks = idxs if want >= len(idxs) else rng.sample(idxs, want)
     for k, (nd, idx) in enumerate(picks):
         fmt, ca = fmts[k % 4] if tier == "quick" else rng.choice(fmts)
@@ -831,6 +838,27 @@ def gen_csr(rng, tier):
     return cases
 
 
+def gen_scipy(rng, tier):
+    """(e): conversion of SciPy csr/csc matrices (valid for SciPy: monotone indptr, in-range indices; rows sorted or not)"""
+    n = 60 if tier == "quick" else 600
+    cases = []
+    for i in range(n):
+        r, c = rng.choice([1, 2, 3]), rng.choice([1, 2, 3, 5])
+        fmt = rng.choice(["csr", "csc"])
+        nrows, ncols = (r, c) if fmt == "csr" else (c, r)
+        indices, indptr, data = [], [0], []
+        for _ in range(nrows):
+            cols = [j for j in range(ncols) if rng.random() < 0.6]
+            if rng.random() < 0.7:
+                rng.shuffle(cols)
+            indices += cols
+            data += [rng.choice([1, 2, -1, 3]) for _ in cols]
+            indptr.append(len(indices))
+        cases.append({"kind": "scipy", "fmt": fmt, "shape": [r, c], "data": data, "indices": indices, "indptr": indptr,
+                      "conv": ["GCXS.from_scipy_sparse", "GCXS", "asarray_gcxs", "COO.from_scipy_sparse", "asarray_coo", "COO"][i % 6]})
+    return cases
+
+
 # =============================================================================== implementation side (worker)
 def impl_run(case):
     import warnings
@@ -850,6 +878,19 @@ def impl_run(case):
         except Exception as ex:  # noqa: BLE001
             r = ex
         return {"r": vlib.plain(r)}
+    if kind == "scipy":
+        import scipy.sparse as sps
+        cls = sps.csr_matrix if case["fmt"] == "csr" else sps.csc_matrix
+        m = cls((np.array(case["data"], dtype=np.int64), np.array(case["indices"], dtype=np.int32),
+                 np.array(case["indptr"], dtype=np.int32)), shape=tuple(case["shape"]))
+        conv = {"GCXS.from_scipy_sparse": sparse.GCXS.from_scipy_sparse, "GCXS": sparse.GCXS,
+                "asarray_gcxs": lambda x: sparse.asarray(x, format="gcxs"), "COO.from_scipy_sparse": sparse.COO.from_scipy_sparse,
+                "asarray_coo": lambda x: sparse.asarray(x, format="coo"), "COO": sparse.COO}[case["conv"]]
+        try:
+            r = conv(m)
+        except Exception as ex:  # noqa: BLE001
+            r = ex
+        return {"r": vlib.plain(r), "ref": vlib.plain(np.asarray(m.toarray()))}
     if kind == "csr":
         a = sparse.GCXS.from_numpy(np.array(case["A"], dtype=np.int64), compressed_axes=(0,))
         b = sparse.GCXS.from_numpy(np.array(case["B"], dtype=np.int64), compressed_axes=(0,))
@@ -902,7 +943,8 @@ CODE_TEXT = {1: "raw result not in canonical/self-consistent form", 5: "GCXS row
 
 def campaign(build, tier, seed, report, budget=1):
     rng = random.Random(seed)
-    cases = gen_directed(rng, tier) + gen_sweep(rng, tier) + gen_programs(rng, tier) + gen_ctor(rng, tier) + gen_csr(rng, tier)
+    cases = (gen_directed(rng, tier) + gen_sweep(rng, tier) + gen_programs(rng, tier) + gen_ctor(rng, tier) + gen_csr(rng, tier)
+             + gen_scipy(rng, tier))
     if budget > 1:
         cases += gen_programs(random.Random(seed + 1), tier) + gen_sweep(random.Random(seed + 2), tier)
     import time
@@ -944,11 +986,31 @@ def campaign(build, tier, seed, report, budget=1):
             reflit = "None" if ref is None or kindtag == "other" else f"(Some ({vlist(ref['shape'])}, {vlist(ref['flat'])}))"
             lits.append(vpair(vlib.sarr_lit(p), vbool(pruned_in), reflit))
             where.append((ci, si))
+    for ci, (c, r) in enumerate(zip(cases, res, strict=True)):
+        if c["kind"] != "scipy":
+            continue
+        if not r or "r" not in r:
+            tag("scipy/harness")
+            continue
+        rows_sorted = all(c["indices"][a:b] == sorted(c["indices"][a:b]) for a, b in zip(c["indptr"], c["indptr"][1:], strict=False))
+        tag(f"scipy/{c['conv']}/{'rows-sorted' if rows_sorted else 'rows-unsorted'}")
+        ref = r["ref"]
+        lits.append(vpair(vlib.sarr_lit(r["r"]), vbool(True), f"(Some ({vlist(ref['shape'])}, {vlist(ref['flat'])}))"))
+        where.append((ci, -1))
     bad = build.judge("c06_results", "From Verif Require Import Py Shape COO GCXS SArr Ctor C06Judge.", "c06_case", "judge_result", lits, chunk=400)
     seen_first = {}
     for idx, code in bad:
         ci, si = where[idx]
         c, r = cases[ci], res[ci]
+        if c["kind"] == "scipy":
+            tag(f"verdict/{code}")
+            viol.append({"property": "C06", "op": "from_scipy:" + c["conv"], "kind": "value", "code": code,
+                         "clause": "from_scipy_sparse_unsorted_indices" if code == 5 else None,
+                         "what": CODE_TEXT.get(code, str(code)), "case": c, "impl": r["r"], "numpy": r["ref"],
+                         "replay_py": f"import numpy as np, scipy.sparse as sps, sparse; m = sps.{c['fmt']}_matrix((np.array({c['data']!r}), "
+                                      f"np.array({c['indices']!r}), np.array({c['indptr']!r})), shape={tuple(c['shape'])!r}); "
+                                      f"g = sparse.GCXS.from_scipy_sparse(m); print(g.indices, g.indptr, g[:, 1:3].todense(), m.toarray()[:, 1:3])"})
+            continue
         if ci in seen_first and seen_first[ci] < si:
             continue                  # later steps of a program that already failed are consequences
         seen_first[ci] = si
